@@ -45,8 +45,9 @@ func akSchema(impl string) *jsonapi.Schema {
 		return s
 	}
 	s := &jsonapi.Schema{}
-	if impl == "wrap" {
-		typ, err := jsonapi.BuildType(reflect.New(structType("ak", allKindsFields(), kindMap{})).Interface())
+	if impl == "wrap" || impl == "wrap2" {
+		// wrap2: the same type name over a struct whose fields are declared in the opposite order
+		typ, err := jsonapi.BuildType(reflect.New(structType("ak", allKindsFields(), kindMap{Rev: impl == "wrap2"})).Interface())
 		must(err)
 		must(s.AddType(typ))
 		must(s.AddType(*softType("ak2", ak2Fields, kindMap{})))
@@ -987,14 +988,18 @@ func codecOtherModes(mode string, rng *rand.Rand, stt *stats, w *evWriter, n int
 						origin = "valid-home"
 					}
 				}
-				for _, impl := range []string{"soft", "wrap"} {
+				for _, impl := range []string{"soft", "wrap", "wrap2"} {
 					emit(impl, entry, origin, valid)
 				}
 			}
 			muts := slotMutations(tree)
-			for _, m := range muts {
+			for mi, m := range muts {
 				b, _ := json.Marshal(m)
-				for _, impl := range []string{"soft", "wrap"} { // the two implementations refuse ill-typed values differently
+				impls := []string{"soft", "wrap"} // the two implementations refuse ill-typed values differently
+				if mi%4 == 0 {
+					impls = append(impls, "wrap2") // two Go types under one type name take turns in the same process
+				}
+				for _, impl := range impls {
 					for _, entry := range feedEntries {
 						emit(impl, entry, "slot", b)
 					}
